@@ -204,6 +204,11 @@ func (m *Model) AllocateRaw(c *RawClient, o AllocOpts, raw []byte, tid [12]byte)
 	return m.allocPost(c, o, a, st, resp, tid)
 }
 
+// AdoptAllocation records an allocation created by a request sent outside the wrappers.
+func (m *Model) AdoptAllocation(c *RawClient, resp *wire.Msg) {
+	m.allocPost(c, AllocOpts{}, nil, Dead, resp, resp.TID)
+}
+
 func (m *Model) allocPost(c *RawClient, o AllocOpts, a *MAlloc, st Tri, resp *wire.Msg, tid [12]byte) *wire.Msg {
 	code := codeOf(resp)
 	m.Rec.Tracef("%s Allocate(tr=%d life=%v fam=%d) alloc=%s -> %d", c.Name, o.Transport, derefU32(o.Lifetime), o.Family, st, code)
